@@ -266,15 +266,16 @@ class Conc:
 _DECIDED = {}
 
 
-def decide_index(E, a_v, v_v, want):
-    """E element by element on every world  ->  (True, None) | (False, counterexample) | (None, why not evaluated)"""
-    key = (S.fkey(E), S.fkey(a_v), S.fkey(v_v), want.__name__)
+def decide_index(E, a_v, v_v, want, also=()):
+    """E element by element on every world  ->  (True, None) | (False, counterexample) | (None, why not evaluated).
+    `also`: names of symbols that stand for the old time vector itself outside the search (with previous_value_tol = 0 it is the array searched)"""
+    key = (S.fkey(E), S.fkey(a_v), S.fkey(v_v), want.__name__, tuple(also))
     if key not in _DECIDED:
-        _DECIDED[key] = _decide_index(E, a_v, v_v, want)
+        _DECIDED[key] = _decide_index(E, a_v, v_v, want, also)
     return _DECIDED[key]
 
 
-def _decide_index(E, a_v, v_v, want):
+def _decide_index(E, a_v, v_v, want, also=()):
     sa, sv = S._strsym(a_v), S._strsym(v_v)
     if not sa or not sv:
         return None, "the arrays searched are not atoms of the index expression"
@@ -283,7 +284,7 @@ def _decide_index(E, a_v, v_v, want):
             if want is previous and t in A:
                 continue          # (exact coincidence of a searched time with a sample: the numpy and the numba definitions differ there - not decided)
             try:
-                got = Conc({sa: A, sv: t}).val(E)
+                got = Conc(dict({k: A for k in also}, **{sa: A, sv: t})).val(E)
             except OutOfRange as e:
                 return False, {"old times": [str(x) for x in A], "new time": str(t), "selected": str(e)}
             except Unsupported as e:
@@ -421,7 +422,7 @@ def r5_fixtime(ctx):
         if d.rsplit(".", 1)[-1] != "searchsorted" or d.split(".")[0] not in ("np", "numpy") or len(node.args) < 2:
             return NotImplemented
         a, v = ev.ev(node.args[0]), ev.ev(node.args[1])
-        if not israt(a) or not israt(v) or not _is_timebase(v) or _is_timebase(a) or find_atoms(v, lambda n, a_: n == "call:np.searchsorted" and False):
+        if not israt(a) or not israt(v) or not _is_timebase(v) or _is_timebase(a):
             return NotImplemented
         tab = ev.sh.notes
         n = sum(1 for x in tab if isinstance(x, tuple) and x[0] == "search")
@@ -439,14 +440,14 @@ def r5_fixtime(ctx):
         kw = {k.arg: ev.ev(k.value) for k in node.keywords if k.arg}
         return ev.np_call("np.searchsorted", pos, kw, node)
 
-    def regime(hold, base, exclude=()):
+    def regime(hold, base):
         pins = {"hold_previous_value": "True" if hold else "False", "getall": "False", "deldrops": "False", "delspikes": "False", "verbose": "False"}
         if not base:
             pins["base"] = "None"
         facts = ["previous_value_tol >= 0.0", "previous_value_tol <= 1.0"] + (["not:base is None"] if base else [])
 
         def make(oracle):
-            R = Run(ctx, fn, DSP, pins=pins, facts=facts, oracle=oracle, exclude=exclude, call=search_hook, run=False)
+            R = Run(ctx, fn, DSP, pins=pins, facts=facts, oracle=oracle, call=search_hook, run=False)
             for nm_ in dup:
                 defs = [f for q, f in mod.funcs.items() if q.split("#")[0] == nm_ and "." not in q]
                 flat = [f for f in defs if not any(isinstance(x, (ast.For, ast.While)) for x in ast.walk(f))]
@@ -590,7 +591,7 @@ def r5_fixtime(ctx):
                     unk2.append("the arrays of the time base are not identified")
                 elif not eq(a_v, te) or not eq(v_v, r["t"]):
                     bad2.append({"sorted array searched": _short(a_v, 200), "expected": _short(te, 200), "times searched for": _short(v_v, 200), "time vector returned": _short(r["t"], 200)})
-                ok, why = decide_index(r["E"], a_s, v_s, want)
+                ok, why = decide_index(r["E"], a_s, v_s, want, [x for x in [S._strsym(told_v)] if x])
                 if ok is None:
                     unk3.append(why)
                 elif not ok:
@@ -689,7 +690,7 @@ def r5_fixtime(ctx):
         elif not eq(a_v, told_v):
             bad.append({"sorted array searched": _short(a_v)})
         else:
-            ok, why = decide_index(r["E"], a_s, v_s, nearest)
+            ok, why = decide_index(r["E"], a_s, v_s, nearest, [x for x in [S._strsym(told_v)] if x])
             if ok is None:
                 unk.append(why)
             elif not ok:
